@@ -22,7 +22,13 @@ def sh(cmd, **kw):
 def run_check(prop, tier, repo):
     env = dict(os.environ, PYDREX_VERIF_REPO=str(repo))
     t = time.time()
-    p = sh(["./check", prop, "--tier", tier], cwd=VERIF, env=env, timeout=3600)
+    ev = VERIF / "evidence" / f"{prop}.json"
+    saved = ev.read_bytes() if ev.exists() else None   # evidence must describe runs against /repo itself, not against a seeded change
+    try:
+        p = sh(["./check", prop, "--tier", tier], cwd=VERIF, env=env, timeout=3600)
+    finally:
+        if saved is not None:
+            ev.write_bytes(saved)
     lines = [l for l in p.stdout.splitlines() if l.startswith(("VIOLATION", "KNOWN-FINDING", "[" + prop))]
     viol = [l for l in p.stdout.splitlines() if l.strip().startswith(("violation:", "corr-mismatch:", "lean:"))]
     return {"exit": p.returncode, "lines": [l[:300] for l in lines if not l.startswith("KNOWN")], "detail": [l.strip()[:300] for l in viol[:6]],
